@@ -229,7 +229,7 @@ def run(ctx):
     tree.activate_view()
     ch.preload()
     axes = _entry_axes()
-    nhist, length, ninl, linl = (8, 5, 2, 3) if ctx.quick else (60, 8, 8, 5)
+    nhist, length, ninl, linl = (6, 5, 2, 3) if ctx.quick else (60, 8, 8, 5)
     if os.environ.get("VERIF_C48_SIZE"):        # development aid only
         nhist, length, ninl, linl = [int(x) for x in os.environ["VERIF_C48_SIZE"].split(",")]
     hists = hyp.draw_many(plans(axes, nhist, length), 2, ctx.seed, "c48", ctx.tier)[-1] if nhist else []
